@@ -347,6 +347,237 @@ func mutexFacts(p *pkg, obj, mu, field string) string {
 	return b.String()
 }
 
+// ---- telnet (C15): what the connection returned by a login function reads from ----
+
+// structFields lists the field names of struct type <name> in declaration order (embedded fields by type name).
+func (p *pkg) structFields(name string) []string {
+	var out []string
+	for _, f := range p.files {
+		for _, d := range f.Decls {
+			gd, ok := d.(*ast.GenDecl)
+			if !ok || gd.Tok != token.TYPE {
+				continue
+			}
+			for _, s := range gd.Specs {
+				ts := s.(*ast.TypeSpec)
+				st, ok := ts.Type.(*ast.StructType)
+				if !ok || ts.Name.Name != name {
+					continue
+				}
+				for _, fl := range st.Fields.List {
+					if len(fl.Names) == 0 {
+						t := fl.Type
+						if se, ok := t.(*ast.StarExpr); ok {
+							t = se.X
+						}
+						if sel, ok := t.(*ast.SelectorExpr); ok {
+							out = append(out, sel.Sel.Name)
+						} else {
+							out = append(out, exprStr(t))
+						}
+					}
+					for _, n := range fl.Names {
+						out = append(out, n.Name)
+					}
+				}
+			}
+		}
+	}
+	return out
+}
+
+func mentions(e ast.Node, ident string) bool {
+	found := false
+	ast.Inspect(e, func(n ast.Node) bool {
+		if id, ok := n.(*ast.Ident); ok && id.Name == ident {
+			found = true
+		}
+		return !found
+	})
+	return found
+}
+
+// loginReaderField: in function <fn>, the variable assigned from bufio.NewReader(…) and the field of
+// the composite literal (of a struct type of this package) in the LAST return statement that holds
+// it. Returns (struct type, field) or ("", "") when the returned value does not carry the reader.
+func (p *pkg) loginReaderField(fn string) (string, string) {
+	// also look into the package-level helpers fn calls (a login loop moved into a helper is the same code)
+	for _, g := range p.closure(fn) {
+		if t, f := p.loginReaderFieldIn(g); t != "" {
+			return t, f
+		}
+	}
+	return "", ""
+}
+
+// closure: fn and the package-level functions reachable from it through direct calls, in call order.
+func (p *pkg) closure(fn string) []string {
+	seen := map[string]bool{}
+	var order []string
+	var visit func(string)
+	visit = func(n string) {
+		if seen[n] {
+			return
+		}
+		fd := p.funcDecl(n)
+		if fd == nil || fd.Body == nil {
+			return
+		}
+		seen[n] = true
+		order = append(order, n)
+		ast.Inspect(fd.Body, func(x ast.Node) bool {
+			if ce, ok := x.(*ast.CallExpr); ok {
+				if id, ok := ce.Fun.(*ast.Ident); ok {
+					visit(id.Name)
+				}
+			}
+			return true
+		})
+	}
+	visit(fn)
+	return order
+}
+
+func (p *pkg) loginReaderFieldIn(fn string) (string, string) {
+	fd := p.funcDecl(fn)
+	if fd == nil || fd.Body == nil {
+		return "", ""
+	}
+	reader := ""
+	ast.Inspect(fd.Body, func(n ast.Node) bool {
+		as, ok := n.(*ast.AssignStmt)
+		if !ok || len(as.Lhs) != 1 || len(as.Rhs) != 1 {
+			return true
+		}
+		if ce, ok := as.Rhs[0].(*ast.CallExpr); ok && exprStr(ce.Fun) == "bufio.NewReader" {
+			if id, ok := as.Lhs[0].(*ast.Ident); ok && reader == "" {
+				reader = id.Name
+			}
+		}
+		return true
+	})
+	if reader == "" {
+		return "", ""
+	}
+	var last *ast.ReturnStmt
+	ast.Inspect(fd.Body, func(n ast.Node) bool {
+		if _, ok := n.(*ast.FuncLit); ok {
+			return false
+		}
+		if r, ok := n.(*ast.ReturnStmt); ok {
+			last = r
+		}
+		return true
+	})
+	if last == nil || len(last.Results) == 0 {
+		return "", ""
+	}
+	e := last.Results[0]
+	if u, ok := e.(*ast.UnaryExpr); ok && u.Op == token.AND {
+		e = u.X
+	}
+	cl, ok := e.(*ast.CompositeLit)
+	if !ok {
+		return "", ""
+	}
+	tname := exprStr(cl.Type)
+	fields := p.structFields(tname)
+	for i, el := range cl.Elts {
+		if kv, ok := el.(*ast.KeyValueExpr); ok {
+			if mentions(kv.Value, reader) {
+				return tname, exprStr(kv.Key)
+			}
+		} else if mentions(el, reader) && i < len(fields) {
+			return tname, fields[i]
+		}
+	}
+	return "", ""
+}
+
+// readsThrough: does method <typ>.Read call <something>.<field>.Read(…)?
+func (p *pkg) readsThrough(typ, field string) bool {
+	if typ == "" || field == "" {
+		return false
+	}
+	fd := p.funcDecl(typ + ".Read")
+	if fd == nil || fd.Body == nil {
+		return false
+	}
+	found := false
+	ast.Inspect(fd.Body, func(n ast.Node) bool {
+		if ce, ok := n.(*ast.CallExpr); ok {
+			if sel, ok := ce.Fun.(*ast.SelectorExpr); ok && sel.Sel.Name == "Read" {
+				if in, ok := sel.X.(*ast.SelectorExpr); ok && in.Sel.Name == field {
+					found = true
+				}
+			}
+		}
+		return true
+	})
+	return found
+}
+
+// deadlineBeforeLogin: a SetDeadline/SetReadDeadline call (possibly inside a function literal
+// registered earlier, e.g. context.AfterFunc) precedes the first ReadString call of <fn>.
+func (p *pkg) deadlineBeforeLogin(fn string) bool {
+	return p.deadlineBefore(fn, map[string]bool{})
+}
+
+// readsLines: fn calls ReadString itself or through package-level helpers.
+func (p *pkg) readsLines(fn string) bool {
+	for _, g := range p.closure(fn) {
+		for _, c := range callsIn(p.funcDecl(g)) {
+			if strings.HasSuffix(c, ".ReadString") {
+				return true
+			}
+		}
+	}
+	return false
+}
+
+func (p *pkg) deadlineBefore(fn string, seen map[string]bool) bool {
+	fd := p.funcDecl(fn)
+	if fd == nil || fd.Body == nil || seen[fn] {
+		return false
+	}
+	seen[fn] = true
+	var dl, rd token.Pos
+	callee := ""
+	ast.Inspect(fd.Body, func(n ast.Node) bool {
+		ce, ok := n.(*ast.CallExpr)
+		if !ok {
+			return true
+		}
+		switch f := ce.Fun.(type) {
+		case *ast.SelectorExpr:
+			switch f.Sel.Name {
+			case "SetDeadline", "SetReadDeadline":
+				if dl == token.NoPos {
+					dl = ce.Pos()
+				}
+			case "ReadString":
+				if rd == token.NoPos {
+					rd = ce.Pos()
+				}
+			}
+		case *ast.Ident:
+			if rd == token.NoPos && f.Name != fn && p.readsLines(f.Name) {
+				rd, callee = ce.Pos(), f.Name
+			}
+		}
+		return true
+	})
+	if rd == token.NoPos {
+		return false
+	}
+	if dl != token.NoPos && dl < rd {
+		return true
+	}
+	return callee != "" && p.deadlineBefore(callee, seen)
+}
+
+func leanBool(name string, v bool) string { return fmt.Sprintf("def %s : Bool := %v\n", name, v) }
+
 func main() {
 	if len(os.Args) != 3 {
 		fatal("usage: extract <repo> <lean Gen dir>")
@@ -387,6 +618,12 @@ func main() {
 	f.WriteString(leanStrList("agwpeFrameReadFromCalls", callsIn(ag.funcDecl("frame.ReadFrom"))))
 	tn := loadPkg(filepath.Join(repo, "transport/telnet"))
 	f.WriteString(leanStrList("telnetDialContextCalls", callsIn(tn.funcDecl("DialContext"))))
+	f.WriteString(leanStrList("telnetAcceptCalls", callsIn(tn.funcDecl("listener.Accept"))))
+	dt, df := tn.loginReaderField("DialContext")
+	at, af := tn.loginReaderField("listener.Accept")
+	f.WriteString(leanBool("telnetDialContextDrains", tn.readsThrough(dt, df)))
+	f.WriteString(leanBool("telnetAcceptDrains", tn.readsThrough(at, af)))
+	f.WriteString(leanBool("telnetDialLoginDeadline", tn.deadlineBeforeLogin("DialContext")))
 	tr := loadPkg(filepath.Join(repo, "transport"))
 	for _, fn := range []string{"DialURLContext", "RegisterContextDialer", "UnregisterDialer"} {
 		f.WriteString(leanStrList("transport"+fn+"Calls", callsIn(tr.funcDecl(fn))))
